@@ -732,7 +732,7 @@ pub fn version_corpus() -> Vec<VSrc> {
         minor: 0,
         patch: MAX_SAFE_INTEGER,
         pre: vec![],
-        build: vec![IdModel::Alnum("18446744073709551616".into())],
+        build: vec![IdModel::Alnum("b-18446744073709551616".into())],
     }));
     v.push(VSrc::Tuple { ty: 0, a: 255, b: 0, c: 1, d: None });
     v.push(VSrc::Tuple { ty: 5, a: 127, b: 0, c: 1, d: Some(127) });
